@@ -552,6 +552,26 @@ example : ([⟨.tilde, ['~'], 3⟩, ⟨.eq, ['='], 4⟩, ⟨.int, ['1'], 5⟩] :
 example : numOrRange (α := Rat) false [⟨.ws, [' '], 3⟩] = none ∧
     (buildText 3 [⟨.ws, [' '], 3⟩]).isTextEmpty toyCharSpec = true := ⟨rfl, rfl⟩
 
+/-- **Empty metadata key** (and value).  Whenever `metadata_entry` returns the entry `>> key: value`:
+    a blank key ⇒ it pushed exactly `empty-metadata-key` (error, parse) labelled with the key's span;
+    a non-blank key with a blank value ⇒ exactly the warning `empty-metadata-value` labelled with the
+    value's span, then the key's span; both non-blank ⇒ no event. -/
+theorem C07_empty_metadata_key (s s' : BP α) (k v : Text)
+    (h : metadataEntry s = (some (.metadata k v), s')) :
+    (k.isTextEmpty s.cs = true →
+      Pushed [.error ⟨.error, .parse, "empty-metadata-key", [k.span]⟩] s s') ∧
+    (k.isTextEmpty s.cs = false → v.isTextEmpty s.cs = true →
+      Pushed [.warning ⟨.warning, .parse, "empty-metadata-value", [v.span, k.span]⟩] s s') ∧
+    (k.isTextEmpty s.cs = false → v.isTextEmpty s.cs = false → Pushed [] s s') :=
+  (Sat.of_run (metadataEntry_spec s) h) k v rfl
+
+/-! non-vacuity: `>> : x` -/
+def C07_exMeta : BP Rat :=
+  ⟨[⟨.metaStart, ['>', '>'], 0⟩, ⟨.ws, [' '], 2⟩, ⟨.colon, [':'], 3⟩, ⟨.ws, [' '], 4⟩, ⟨.word, ['x'], 5⟩],
+    0, ⟨0⟩, toyCharSpec, #[], none⟩
+example : ∃ k v s', metadataEntry C07_exMeta = (some (.metadata k v), s') ∧
+    k.isTextEmpty C07_exMeta.cs = true := ⟨_, _, _, rfl, rfl⟩
+
 /-! ### Placement: labels inside the construct -/
 
 /-- **Every label of every diagnostic of an ingredient lies inside the ingredient.**  Run `ingredient`
